@@ -386,14 +386,25 @@ def check_freshness(ctx):
     ini = pr.methods.get('__init__')
     if ini is not None:
         pparam = ini.node.args.args[1].arg if len(ini.node.args.args) > 1 else 'pkt'
-        for n_ in ast.walk(ini.node):
-            if isinstance(n_, ast.Assign) and isinstance(n_.targets[0], ast.Attribute) and n_.targets[0].attr == 'template' and canon(n_.targets[0].value) == 'self':
-                v = n_.value
-                st = stmt_text(n_)
-                if call_name(v) in ('pickle.dumps', 'copy.deepcopy', 'deepcopy') and v.args and canon(v.args[0]) == pparam:
-                    ctx.holds(rule, ini, st, 'the prototype is a snapshot (pickle / deep copy) of the packet given at declaration', n_.lineno)
-                else:
-                    ctx.violation(rule, ini, st, 'the prototype keeps the caller\'s live packet: changing or reusing it after the class was declared changes the defaults of every new packet', n_.lineno)
+        seen_st = set()
+        for p_ in repo.walker(inline_depth=ctx.depth, max_paths=ctx.max_paths).paths(ini.node, cls=pr):
+            if p_.raises():
+                continue
+            stores = [e for e in p_.effects if e.kind == 'store_attr' and canon(e.obj) == 'self' and e.name == 'template']
+            if not stores:
+                ctx.violation(rule, ini, 'Prototype.__init__ path [%s]' % '; '.join(p_.guard_texts())[:100], 'no template is kept on this path', ini.node.lineno)
+                continue
+            v = stores[-1].value           # what the prototype holds when the constructor returns
+            st = 'self.template = %s' % canon(v)[:100]
+            if st in seen_st:
+                continue
+            seen_st.add(st)
+            if call_name(v) in ('pickle.dumps', 'copy.deepcopy', 'deepcopy') and v.args and canon(v.args[0]) == pparam:
+                ctx.holds(rule, ini, st, 'the prototype is a snapshot (pickle / deep copy) of the packet given at declaration', stores[-1].lineno)
+            elif canon(v) == pparam or (isinstance(v, ast.Call) and call_name(v) in ('copy.copy', 'copy') and v.args and canon(v.args[0]) == pparam):
+                ctx.violation(rule, ini, st, 'the prototype keeps the caller\'s live packet: changing or reusing it after the class was declared changes the defaults of every new packet', stores[-1].lineno)
+            else:
+                ctx.undecided(rule, ini, st, 'cannot tell whether the stored template is a snapshot of the packet', stores[-1].lineno)
     # Field.init default and Ref default are copied when the field is declared / initialised
     ref = repo.cls('Ref')
     lf = None
